@@ -70,6 +70,10 @@ impl OutputFormat for Renegade {
             pos.x = 0;
             pos.y += 1;
         }
+        if result.starts_with(&[0xEF, 0xBB, 0xBF]) {
+            // a CP437 file that starts with the three characters of a UTF-8 byte order mark would be loaded as UTF-8
+            result.splice(0..0, *b"|07");
+        }
         Ok(result)
     }
 
